@@ -7,8 +7,10 @@ OWN = {
             'checked-pipeline-keeps-order', 'second-check-same-machine-identical', 'accepted-pipeline-runs-without-error',
             'each-step-once-per-scale-in-order-left-then-right', 'after-run-initial-state-no-leftover-transitions',
             'second-run-same-machine-identical', 'history-other-pipeline-checked-before-same-steps-same-order',
-            'history-other-pipeline-checked-before-run-as-configured'],
+            'history-other-pipeline-checked-before-run-as-configured', 'history-other-pipeline-run-before-run-as-configured',
+            'history-other-pipeline-run-before-same-products-as-fresh-machine'],
     'C08': ['right-products-equal-left-products-of-mirrored-run', 'no-validation-right-dataset-empty',
+            'history-other-pipeline-run-before-right-dataset-empty-without-validation',
             'adding-cross-checking-leaves-left-disparity-unchanged', 'accepted-pipeline-runs-without-error'],
     'C15': ['matching-runs-once-per-scale-coarse-to-fine', 'last-scale-is-full-resolution', 'user-interval-at-each-scale',
             'right-user-interval-at-each-scale', 'coarsest-level-searches-user-interval-over-sf^(n-1)',
